@@ -763,6 +763,7 @@ func monitor(sc *scenario, r *run) (viol []string) {
 		q := other(p)
 		vk, nVerack, lateN, nVersion := false, 0, 0, 0
 		sent, read, closed := false, false, false
+		rejectedEarly := false
 		pv := -1
 		for _, e := range r.evs {
 			if e["p"] != p {
@@ -776,6 +777,12 @@ func monitor(sc *scenario, r *run) (viol []string) {
 				}
 				if r.roles[p] == "in" && !read {
 					once("X01:inbound-speaks-first", "inbound peer "+p+" wrote a "+k+" message before it had read anything")
+				}
+				if rejectedEarly {
+					once("X01:negotiation-continued-after-reject", p+" answered a non-version first message with a reject and then went on with the negotiation (wrote a "+k+" message)")
+				}
+				if k == "reject" && !vk {
+					rejectedEarly = true
 				}
 				if k != "version" && k != "reject" && !vk {
 					once("X01:started-without-version:"+k, p+" runs its handlers and wrote a "+k+" message although it never received a version message")
@@ -1082,7 +1089,7 @@ func selftest() {
 		b, _ := json.Marshal(map[string]interface{}{"kind": "selftest", "name": name, "rejected": rejected})
 		fmt.Println(string(b))
 	}
-	emit("the unchanged run is accepted", len(monitor(sc, r)) != 0 == false)
+	emit("an unchanged run raises no alarm", len(monitor(sc, r)) != 0 == false)
 	try := func(name, key string, f func(evs []event) []event) {
 		cp := make([]event, len(r.evs))
 		for i, e := range r.evs {
@@ -1092,9 +1099,14 @@ func selftest() {
 			}
 			cp[i] = c
 		}
+		got := false
+		defer func() {
+			if p := recover(); p != nil { // the recorded run lacks the event to corrupt (a broken tree)
+				emit(name, false)
+			}
+		}()
 		r2 := *r
 		r2.evs = f(cp)
-		got := false
 		for _, k := range monitor(sc, &r2) {
 			if strings.HasPrefix(k, key) {
 				got = true
@@ -1139,6 +1151,11 @@ func selftest() {
 	})
 	try("verack written without a version", "X01:started-without-version", func(evs []event) []event {
 		i := find(evs, "Deliver", "B", "version")
+		for _, e := range evs {
+			if e["ev"] == "Deliver" && e["p"] == "B" {
+				e["vk"] = false
+			}
+		}
 		return append(evs[:i:i], evs[i+1:]...)
 	})
 	r.same = true
